@@ -28,11 +28,27 @@ func SetOnPoint(f func(label string) error) {
 	onPoint.Store(&onPointHolder{f: f})
 }
 
+type labelSet struct{ m map[string]bool }
+
+var schedLabels atomic.Pointer[labelSet]
+
+// SetSchedLabels restricts which hook labels are scheduling points (nil map = all labels,
+// empty map = none). Fault/observation callbacks set with SetOnPoint still see every label.
+func SetSchedLabels(m map[string]bool) {
+	if m == nil {
+		schedLabels.Store(nil)
+		return
+	}
+	schedLabels.Store(&labelSet{m: m})
+}
+
 type handler struct{}
 
 func (handler) Point(label string) error {
 	if s := sched.Active(); s != nil {
-		s.HookPoint(label)
+		if ls := schedLabels.Load(); ls == nil || ls.m[label] {
+			s.HookPoint(label)
+		}
 	}
 	if h := onPoint.Load(); h != nil {
 		return h.f(label)
